@@ -138,8 +138,6 @@ def run_call(fn_obj, fn_ir, recipe, glb, script=None):
         else:
             out["result"] = ("ret", nrepr(res))
             out["ret_obj"] = res
-    if fn_ir["gen"]:
-        gc.collect()
     out["log"] = list(glb["LOG"])
     out["watch"] = {k: nrepr(v) for k, v in watch.items()}
     out["globals"] = {k: nrepr(glb.get(k)) for k in ("G1", "G2")}
@@ -163,7 +161,7 @@ def drive(g, script, out):
                 return ("closed",)
             elif op[0] == "drop":
                 del g
-                gc.collect()
+                gc.collect(1)
                 out["steps"].append(("dropped",))
                 return ("dropped",)
             else:
@@ -186,7 +184,7 @@ def drive(g, script, out):
             out.setdefault("sent", []).append(None)
     # script exhausted with the generator still suspended: drop it
     del g
-    gc.collect()
+    gc.collect(1)
     out["steps"].append(("left-suspended-then-dropped",))
     return ("dropped",)
 
